@@ -52,6 +52,10 @@ def trace(detector, **kwargs) -> None:
             threading.get_ident(),
         )
     )
+    # planned failure AFTER logging (C01: a failing model still executes exactly once)
+    if kwargs.get("_raise_step") is not None and int(kwargs["_raise_step"]) == int(detector.pipeline_count):
+        cls = {"TypeError": TypeError, "ValueError": ValueError, "KeyError": KeyError, "AttributeError": AttributeError}[kwargs.get("_raise_cls", "TypeError")]
+        raise cls("planned failure of a trace probe")
 
 
 def write_image(detector, value: int = 1, dtype: str = "uint16") -> None:
